@@ -805,8 +805,6 @@ Proof.
     assert (E1 : fse_inner q = Ok ((EMappingStart 0 None, spK),
                    mkp (tk ++ tvv ++ tv ++ y :: r) None SFlowSequenceEntryMappingKey (s :: k) (ae_map e) (ae_next e) tg kp))
       by (unfold fse_inner; vpeek Hv; reflexivity).
-    (* 2: the key *)
-    destruct (first_tok_spanned _ _ _ _ Hwk Hmk) as (sp0 & y0 & tk' & -> & [S0 | [? _]]); [|discriminate].
     set (e1 := env_after e (pre_events kn)) in *.
     assert (Hn1 : (0 < ae_next e1)%N) by (apply env_after_pos; exact Hn).
     (* 3: the value, from any parser in state MappingValue *)
@@ -843,12 +841,33 @@ Proof.
           by (destruct ty; try discriminate; unfold flow_sequence_entry_mapping_value; vpeek V2; reflexivity).
         eexists; eexists. split; [eapply run_one; exact Eq | reflexivity]. }
     (* the token after the key *)
-    assert (Hyk : exists yk rk, tvv ++ tv ++ y :: r = yk :: rk /\ follow (snd yk) = true).
+    assert (Hyk : exists yk rk, tvv ++ tv ++ y :: r = yk :: rk /\ follow (snd yk) = true /\
+                                (snd yk = TValue \/ fen_fse (snd yk) = true)).
     { destruct vt; cbn in Hmvv.
-      - apply map_snd_cons in Hmvv as (spV & t3 & -> & _). cbn. eauto.
+      - apply map_snd_cons in Hmvv as (spV & t3 & -> & _). cbn. do 2 eexists. split; [reflexivity|]. cbn. auto.
       - apply map_snd_nil in Hmvv as ->. cbn [orb] in Hvt. destruct vn; try discriminate.
-        cbn [tokens_of] in Hmv. apply map_snd_nil in Hmv as ->. cbn. eauto. }
-    destruct Hyk as (yk & rk & Eyk & Hfyk).
+        cbn [tokens_of] in Hmv. apply map_snd_nil in Hmv as ->. cbn. do 2 eexists. split; [reflexivity|]. auto. }
+    destruct Hyk as (yk & rk & Eyk & Hfyk & Hyk).
+    destruct (is_none kn) eqn:EN; cbn [orb] in Hwk.
+    { (* 2a: the key is left out (`[ ? ]`, `[ ? : x ]`): the null scalar, at the Value / FlowEntry / FlowSequenceEnd
+         token, which stays where it is *)
+      destruct kn; try discriminate. cbn [tokens_of] in Hmk. apply map_snd_nil in Hmk as ->. cbn [app] in *.
+      destruct yk as [spy ty]. cbn [snd] in Hyk.
+      assert (E2 : state_machine (mkp (tvv ++ tv ++ y :: r) None SFlowSequenceEntryMappingKey (s :: k) (ae_map e) (ae_next e) tg kp) =
+                   Ok ((empty_scalar, spy), mkp rk (Some (spy, ty)) SFlowSequenceEntryMappingValue (s :: k) (ae_map e) (ae_next e) tg kp)).
+      { unfold token in *. rewrite Eyk. destruct Hyk as [-> | Hyk]; [|destruct ty; try discriminate]; reflexivity. }
+      destruct (Hval (mkp rk (Some (spy, ty)) SFlowSequenceEntryMappingValue (s :: k) (ae_map e) (ae_next e) tg kp)
+                  ltac:(unfold token in *; rewrite Eyk; reflexivity)) as (p3 & m & R3 & V3).
+      exists (set_state p3 SFlowSequenceEntry). split; [|eapply view_set_state; exact V3].
+      eapply run_cons; [exact E1|].
+      cbn [pre_events number number1 pnull reg fst app].
+      econstructor; [exact E2|].
+      eapply steps_app.
+      + apply run_steps. rewrite sm_fsem_value by reflexivity. exact R3.
+      + econstructor; [|constructor].
+        rewrite (sm_fsem_end p3 m (view_state _ _ _ _ _ _ _ _ V3)). reflexivity. }
+    (* 2b: the key is a node *)
+    destruct (first_tok_spanned _ _ _ _ Hwk Hmk) as (sp0 & y0 & tk' & -> & [S0 | [? _]]); [|discriminate].
     assert (E2 : state_machine (mkp (((sp0, y0) :: tk') ++ tvv ++ tv ++ y :: r) None SFlowSequenceEntryMappingKey (s :: k) (ae_map e) (ae_next e) tg kp) =
                  parse_node (push_state (mkp (tk' ++ tvv ++ tv ++ y :: r) (Some (sp0, y0)) SFlowSequenceEntryMappingKey (s :: k) (ae_map e) (ae_next e) tg kp)
                                         SFlowSequenceEntryMappingValue) false false)
@@ -1388,17 +1407,18 @@ Lemma state_machine_docend p u k a n tg kp :
   view p = mkv u SDocumentEnd k a n tg kp -> state_machine p = document_end p.
 Proof. intros H. unfold state_machine. rewrite (view_state _ _ _ _ _ _ _ _ H). reflexivity. Qed.
 
-Definition doc_follow (x : tok) : bool := match x with TDocumentEnd | TStreamEnd => true | _ => false end.
+Definition doc_follow (x : tok) : bool := match x with TDocumentEnd | TStreamEnd | TDocumentStart => true | _ => false end.
 
-Lemma doc_content es t p1 (tt : list token) x rest keep :
+(* the root node of a document, from any anchor environment and tag table *)
+Lemma doc_content_gen es t p1 (tt : list token) x rest e tg keep :
   wf_root es t = true ->
-  view p1 = mkv (tt ++ x :: rest) (doc_state es) [SDocumentEnd] [] 1%N [] keep ->
+  view p1 = mkv (tt ++ x :: rest) (doc_state es) [SDocumentEnd] (ae_map e) (ae_next e) tg keep ->
   map snd tt = tokens_of t -> doc_follow (snd x) = true ->
-  bound [] env0 (pre_events t) = true ->
-  exists p2, steps p1 (events_of t) p2 /\
-     view p2 = mkv (x :: rest) SDocumentEnd [] (ae_map (env_after env0 (pre_events t))) (ae_next (env_after env0 (pre_events t))) [] keep.
+  bound tg e (pre_events t) = true -> (0 < ae_next e)%N ->
+  exists p2, steps p1 (number tg e (pre_events t)) p2 /\
+     view p2 = mkv (x :: rest) SDocumentEnd [] (ae_map (env_after e (pre_events t))) (ae_next (env_after e (pre_events t))) tg keep.
 Proof.
-  intros Hw Hv Hm Hx Hb. unfold wf_root in Hw. unfold events_of.
+  intros Hw Hv Hm Hx Hb Hn. unfold wf_root in Hw.
   assert (Hfx : follow (snd x) = true) by (destruct (snd x); try discriminate; reflexivity).
   destruct (is_none t) eqn:EN.
   - (* the root node is left out: only after '---' *)
@@ -1411,15 +1431,26 @@ Proof.
     + reflexivity.
   - destruct (first_tok_spanned _ _ _ _ Hw Hm) as (sp0 & y0 & tt' & -> & [S0 | [? _]]); [|discriminate].
     cbn [app] in Hv.
-    destruct (node_spec t true false (mkp (tt' ++ x :: rest) (Some (sp0, y0)) (doc_state es) [SDocumentEnd] [] 1%N [] keep)
-                ((sp0, y0) :: tt') x rest (doc_state es) SDocumentEnd [] env0 [] keep Hw eq_refl Hm Hfx ltac:(discriminate) Hb
-                ltac:(reflexivity)) as (p2 & R2 & V2).
+    destruct (node_spec t true false (mkp (tt' ++ x :: rest) (Some (sp0, y0)) (doc_state es) [SDocumentEnd] (ae_map e) (ae_next e) tg keep)
+                ((sp0, y0) :: tt') x rest (doc_state es) SDocumentEnd [] e tg keep Hw eq_refl Hm Hfx ltac:(discriminate) Hb
+                Hn) as (p2 & R2 & V2).
     exists p2. split; [|exact V2]. apply run_steps.
     eapply run_eq; [|exact R2].
     destruct es; cbn [doc_state] in *.
     + rewrite (state_machine_content p1 _ _ _ _ _ _ Hv). unfold document_content. vpeek Hv.
       start_cases y0; reflexivity.
     + rewrite (state_machine_blocknode p1 _ _ _ _ _ _ Hv). unfold parse_node. vpeek Hv. reflexivity.
+Qed.
+
+Lemma doc_content es t p1 (tt : list token) x rest keep :
+  wf_root es t = true ->
+  view p1 = mkv (tt ++ x :: rest) (doc_state es) [SDocumentEnd] [] 1%N [] keep ->
+  map snd tt = tokens_of t -> doc_follow (snd x) = true ->
+  bound [] env0 (pre_events t) = true ->
+  exists p2, steps p1 (events_of t) p2 /\
+     view p2 = mkv (x :: rest) SDocumentEnd [] (ae_map (env_after env0 (pre_events t))) (ae_next (env_after env0 (pre_events t))) [] keep.
+Proof.
+  intros Hw Hv Hm Hx Hb. exact (doc_content_gen es t p1 tt x rest env0 [] keep Hw Hv Hm Hx Hb eq_refl).
 Qed.
 
 Lemma doc_close ee p2 (tde : list token) spE a n keep :
